@@ -26,6 +26,8 @@ pub struct Opts {
     /// None = krill defaults.
     pub timing: Option<IssuanceTimingConfig>,
     pub ta_timing: Option<TaTimingConfig>,
+    /// `use_history_cache` (the daemon's default is true; krill's own tests all use false).
+    pub history_cache: bool,
 }
 
 impl Default for Opts {
@@ -46,6 +48,7 @@ impl Default for Opts {
             },
             timing: None,
             ta_timing: None,
+            history_cache: true,
         }
     }
 }
@@ -90,7 +93,7 @@ pub fn test_config(storage_uri: StorageUri, data_dir: &Path, opts: &Opts) -> Con
         unix_socket: None,
         unix_users: HashMap::new(),
         storage_uri,
-        use_history_cache: false,
+        use_history_cache: opts.history_cache,
         tls_keys_dir: Some(data_dir.join(HTTPS_SUB_DIR)),
         repo_dir: Some(data_dir.join(REPOSITORY_DIR)),
         ta_support_enabled: false,
